@@ -224,6 +224,14 @@ func (l *Lexer) readDigit(tok *token.Token) {
 
 func (l *Lexer) readFloat(hasReadExponentAlready bool, tok *token.Token) {
 
+	if hasReadExponentAlready {
+		// the caller consumed the exponent indicator right after the integer part
+		// (1e-2, 1E+5): an optional sign follows it
+		if sign := l.peekRune(false); sign == runes.SUB || sign == runes.ADD {
+			l.readRune()
+		}
+	}
+
 	var r byte
 	for {
 		r = l.peekRune(false)
